@@ -294,7 +294,8 @@ Definition run_tx (args : list val) : val :=
       end
   | _ => verror "args"
   end.
-(* tx-spec: every byte of the specified encoding exactly once and in order; descriptors with the first byte only *)
+(* tx-spec: every byte of the specified encoding exactly once and in order; descriptors with the first byte only
+   (what ends up on the wire is C01's subject, that it does so under every partial write is C08's) *)
 Definition run_tx_spec (args : list val) : val :=
   match args with
   | [VN maxq; st; _; VL [res; VH wire; VL fdpos]] =>
@@ -310,7 +311,7 @@ Definition run_tx_spec (args : list val) : val :=
                                | f, [VL [VN 0; VL got]] => match all_some (map val_N got) with Some g => list_eqb g f | None => false end
                                | _, _ => false
                                end in
-                  if is_ok res then vbool_tag (list_eqb (hex_bytes wire) expect && fd_ok) "C08"
+                  if is_ok res then vbool_tag (list_eqb (hex_bytes wire) expect && fd_ok) "C01,C08"
                   else VS "n/a"
               | None => VS "n/a"
               end
@@ -444,12 +445,17 @@ Definition run_shut (args : list val) : val :=
   | _ => verror "args"
   end.
 
-(* ---- family "kern": kernel backends ----  args: [VS backend; VS op; nums; VH data; VN acked] *)
+(* ---- family "kern": kernel backends ----  args: [VS backend; VS op; nums; VH data; VN acked; VN layout] *)
 Definition run_kern (args : list val) : val :=
   match args with
   | [VS backend; VS op; nums; VH data; VN acked] =>
       match val_NL nums with
-      | Some a => kern_expected backend op a (hex_bytes data) acked
+      | Some a => kern_expected backend op a (hex_bytes data) acked 0
+      | None => verror "args"
+      end
+  | [VS backend; VS op; nums; VH data; VN acked; VN lay] =>
+      match val_NL nums with
+      | Some a => kern_expected backend op a (hex_bytes data) acked lay
       | None => verror "args"
       end
   | _ => verror "args"
@@ -457,7 +463,7 @@ Definition run_kern (args : list val) : val :=
 (* the specification IS the expected observation: the check is equality *)
 Definition run_kern_spec (args : list val) : val :=
   match args with
-  | [b; o; n; d; a; observed] => vbool (val_eqb (run_kern [b; o; n; d; a]) observed)
+  | [b; o; n; d; a; l; observed] => vbool (val_eqb (run_kern [b; o; n; d; a; l]) observed)
   | _ => verror "args"
   end.
 
